@@ -224,6 +224,19 @@ def run(chk, facts):
         except NoEval as ex:
             why_af = f"could not be evaluated ({ex})"
         s = ""
+        try:
+            # a case that exists only to reach the defensive arm of the sort key (an imported item that is not a plain identifier)
+            st2_ = {"__struct__": "Imports", "imports": ("list", []), "from_imports": ("map", {"m": {"__struct__": "Import", "from": ("Some", {"__struct__": "Id", "lit": "m"}),
+                    "import": ("list", [{"__struct__": "Type", "lit": "X", "generics": ("list", [])}]), "alias": ("list", [])}})}
+            try:
+                ev_f.call(af, [st2_, "m", "Y"])
+            except NoEval:
+                pass
+            unc_r = ev_i.uncovered() + ev_f.uncovered()
+        except NameError:
+            unc_r = ["the registration functions were not folded"]
+        chk.ob("R-C16-2", "registration:fold-covers-every-branch", not unc_r, "the registration sequences reach every branch of add_import / add_from_import" if not unc_r else
+               f"the registration sequences do not reach {len(unc_r)} branch(es), e.g. {unc_r[0]}: what is registered there is not decided", facts.loc_of(af))
         chk.ob("R-C16-2", "add_from_import:dedup", ok, "add_from_import keeps one entry per module and adds a name only when it is new" if ok else
                f"add_from_import no longer keeps one entry per module with each name once: {why_af}", facts.loc_of(af))
         st = syn.structs.get("generate::convert::state::Imports")
